@@ -5,7 +5,7 @@ COQ_TARGET = "C14"
 TRUSTED = ["datetime.strptime('%H:%M') and str(timedelta) are modelled (Model/ScheduleTools.v strptime_HM, timedelta_str)"]
 ASSUMPTIONS = ["arguments are HH:MM strings; other spellings are compared with the model and not judged"]
 RULE = ("pairs of clock strings: all (s, s), (s, s+1), (s, s-1), the edges 00:00 / 23:59 against every minute, random pairs "
-        "(thorough: all 2 073 600 pairs against the Spec formula), one-digit spellings and malformed strings against the model; pairs under zones with DST on transition days (virtual clock); "
+        "(thorough: all 2 073 600 pairs against the Spec formula), one-digit spellings and malformed strings against the model; SwitcherSchedule objects created in sequence with colliding slot ids, their duration read twice; pairs under zones with DST on transition days (virtual clock); "
         "non-trivial = distinct pairs with start != end")
 REQUIREMENT = "calc_duration(HH:MM, HH:MM) = H:MM:SS of ((end - start) mod 1440) minutes; equal times give 0:00:00"
 
@@ -28,6 +28,24 @@ def run(tier, rnd, out):
     mo = lib.run_model([lib.req("duration", a, b) for a, b in pairs]); ex = lib.run_model([lib.req("duration_spec", a, b) for a, b in pairs])
     lib.differential(out, "pairs", cases, io, mo, ex, lambda c: "calc_duration(%r, %r)" % (c["start"], c["end"]),
                      nontrivial=lambda c: c["start"] != c["end"], sample=lambda c: c, classify=lambda c, i: i.split(" ")[0])
+    # schedule objects: every object reports the duration of its own times, whatever objects (same slot id included) exist already
+    from aioswitcher.schedule.parser import SwitcherSchedule
+    from aioswitcher.schedule import Days
+    objs = []; oc_ = []
+    for _ in range(300 if tier == "quick" else 5000):
+        sid = str(rnd.randrange(8)); a = hm(rnd.randrange(1440)); b = hm(rnd.choice([rnd.randrange(1440), rnd.randrange(1440), int(a[:2]) * 60 + int(a[3:])]))
+        try: o = SwitcherSchedule(sid, rnd.random() < .5, set(rnd.sample(list(Days), rnd.randrange(0, 3))), a, b)
+        except Exception: o = None
+        objs.append(o); oc_.append({"slot": sid, "start": a, "end": b})
+    def dur(o):
+        try: return "ok " + o.duration
+        except Exception: return "raised"
+    io = [dur(o) for o in objs]; io2 = [dur(o) for o in objs]
+    ex = lib.run_model([lib.req("duration_spec", c["start"], c["end"]) for c in oc_])
+    lib.differential(out, "schedule-objects-sharing-slot-ids", oc_, io, None, ex, lambda c: "SwitcherSchedule(slot %s, %r, %r).duration (after other schedules of the same slots)" % (c["slot"], c["start"], c["end"]),
+                     nontrivial=lambda c: c["start"] != c["end"], sample=lambda c: c, classify=lambda c, i: "object/" + i.split(" ")[0])
+    lib.differential(out, "schedule-objects-read-again", oc_, io2, None, ex, lambda c: "SwitcherSchedule(slot %s, %r, %r).duration read a second time" % (c["slot"], c["start"], c["end"]),
+                     nontrivial=lambda c: c["start"] != c["end"], sample=lambda c: c, classify=lambda c, i: "object/" + i.split(" ")[0])
     # the duration of two clock strings does not depend on the host zone or on today's date
     import datetime as D, zoneinfo
     for zone in (["Europe/Berlin", "America/New_York", "Australia/Lord_Howe"] if tier == "quick" else world.ZONES_QUICK + world.ZONES_MORE):
@@ -56,7 +74,11 @@ def run(tier, rnd, out):
 
 
 def replay(rp, out):
-    c = rp["input"]; a, b = c["start"], c["end"]
+    c = rp["input"]
+    if "slot" in c:                      # a sequence of schedule objects: the whole quick run is the replay
+        import random
+        run("quick", random.Random(int(rp.get("seed", 1))), out); return
+    a, b = c["start"], c["end"]
     if "zone" in c:
         io = world.zone_job(c["zone"], "duration", [c])
         lib.differential(out, "replay", [c], io, lib.run_model([lib.req("duration", a, b)]), lib.run_model([lib.req("duration_spec", a, b)]), lambda c: "zone %s now %d calc_duration(%r, %r)" % (c["zone"], c["now"], a, b))
